@@ -143,7 +143,8 @@ func c07chainTemplates() []c07tmpl {
 	for _, sfx := range []string{".acc({|a, x| a + x}, init: 0).A", ".all? {|x| x > 0}", ".any? {|x| x > 99}", ".append(9).A", ".avg", ".chain([9]).A", ".chunk(2).A", ".empty?",
 		".exclude {|x| x > 99}", ".find {|x| x > 99}", ".index(99)", ".indices(99)", ".keyBy {|x| x}", ".lazyMap {|x| x}.A", ".last", ".map {|x| x}", ".max", ".min", ".prepend(9).A",
 		".reduce({|a, x| a + x}, init: 0)", ".rindex(99)", ".select {|x| x < 99}", ".std", ".sum", ".tally", ".until {|x| x > 99}.A", ".while {|x| x < 99}.A", ".withI.A", ".zip([7, 8, 9]).A",
-		".lazyMap {|x| x}.chain([9]).A", ".lazyMap {|x| x}.append(9).sum", ".withI.lazyMap {|p| p}.A"} {
+		".lazyMap {|x| x}.chain([9]).A", ".lazyMap {|x| x}.append(9).sum", ".withI.lazyMap {|p| p}.A",
+		".first", ".doUntil {|x| x > 99}.A", ".doWhile {|x| x < 99}.A", ".flipflop({|x| x > 99}, {|x| x > 99}).A", ".each {|x| x}", ".len", ".has?(99)", ".rev", ".sort", ".uniq", ".join(\",\")", ".T", ".S"} {
 		ts = append(ts, c07tmpl{name: "iterator receiver Iterable#" + sfx, text: itr + sfx})
 	}
 	// functions handed to the native library (predicates, patterns, callbacks): what they raise reaches the caller
